@@ -1,9 +1,12 @@
 #!/bin/sh
-# usage: tools_seed.sh <patch> <prop ids...> : apply a seeded patch to /repo, run the checks, undo
+# usage: tools_seed.sh <patch> <prop ids...> : apply a seeded patch to /repo, run the checks, undo.
+# evidence files are restored afterwards (committed evidence must come from the unchanged tree)
 p=$1; shift
-git -C /repo apply "$p" || exit 9
+cp -r /verif/evidence /tmp/evidence.keep.$$
+git -C /repo apply "$p" 2>/dev/null || { echo "patch does not apply"; exit 9; }
 for id in "$@"; do
-  /verif/check $id --tier quick 2>/dev/null | grep -E "VIOLATION|KNOWN|BROKEN|^C[0-9]+ " 
+  /verif/check $id --tier quick 2>/dev/null | grep -E "VIOLATION|KNOWN|BROKEN|^C[0-9]+ "
 done
 git -C /repo checkout -- .
 git -C /repo status --short
+rm -rf /verif/evidence; mv /tmp/evidence.keep.$$ /verif/evidence
